@@ -44,6 +44,7 @@ func init() {
 }
 
 func selfTest(x *mon.Ctx) {
+	ctx = x
 	if err := enc.SelfTest(); err != nil {
 		x.HarnessError("%v", err)
 	}
@@ -80,10 +81,17 @@ func newKey(cv enc.Curve, d *big.Int) *keyPair {
 	if inf {
 		panic("c07: private scalar is a multiple of n")
 	}
+	return &keyPair{cv: cv, d: d, px: px, py: py, priv: newKeyFromPoint(cv, d, px, py)}
+}
+
+func newKeyFromPoint(cv enc.Curve, d, px, py *big.Int) *sm2.PrivateKey {
 	priv := new(sm2.PrivateKey)
 	priv.PrivateKey = ecdsa.PrivateKey{PublicKey: ecdsa.PublicKey{Curve: libCurve(cv), X: new(big.Int).Set(px), Y: new(big.Int).Set(py)}, D: new(big.Int).Set(d)}
-	return &keyPair{cv: cv, d: d, px: px, py: py, priv: priv}
+	return priv
 }
+
+// ctx is the run context of the workload in progress (one workload per process).
+var ctx *mon.Ctx
 
 // fixed private scalars for which special ephemeral scalars were searched offline
 // (the searched property is re-established with the reference at run time).
@@ -310,6 +318,10 @@ func (o *oracle) judge(c *mon.Case, what string, b []byte, dv *decVariant, pt []
 	}
 	c.Detail("ciphertext", b)
 	c.Detail("got", pt)
+	if id := knownAccept(o.kp, b, pt); id != "" {
+		c.Known(id, "accept", "%s: %s returned a %d-byte plaintext for a ciphertext whose C1 is the point at infinity (x1 = y1 = 0)", what, dv.name, len(pt))
+		return true
+	}
 	c.Fail("accept", "%s: %s returned a %d-byte plaintext (%x) for a byte string that the reference decryption refuses under every layout", what, dv.name, len(pt), clip(pt))
 	return true
 }
@@ -410,4 +422,16 @@ func script(c *mon.Case, blocks ...[]byte) *mon.Script {
 	s.Tail = mon.NewRand(0, "c07.script-tail", c.N)
 	s.MaxBytes = len(st) + 256*32
 	return s
+}
+
+// drawK draws ephemeral scalars until the n-byte mask is not all zero (what the
+// standard's restart rule does; matters for 1- and 2-byte messages only).
+func drawK(c *mon.Case, kp *keyPair, n int) (k, x2, y2 *big.Int) {
+	for {
+		k = randScalar(c.R, kp.cv.N())
+		_, _, x2, y2, err := enc.Shared(kp.cv, k, kp.px, kp.py)
+		if err == nil && !allZero(enc.Mask(kp.cv, x2, y2, n)) {
+			return k, x2, y2
+		}
+	}
 }
